@@ -120,6 +120,12 @@ def cfg_phasor(tier, seed):
     out.append({'shape': [3, 3], 'amp': 'scalar', 'opd': 'array', 'mask': '2d', 'segs': [[[0, 0], [1, 1]]], 'cls': 'Pupil', 'inc': 'default'})
     out.append({'shape': [3, 3], 'amp': 'scalar', 'opd': 'scalar', 'mask': '2d', 'segs': [[[0, 1], [1, 1], [1, 2]]], 'cls': 'Pupil', 'inc': 'default'})
     out.append({'shape': [2, 3], 'amp': 'array', 'opd': 'scalar', 'mask': '3d', 'segs': [[[0, 0], [1, 2]], [[0, 1], [1, 1]]], 'cls': 'Plane', 'inc': 'after-plane'})
+    # the incoming field and the plane's mask have bounding boxes of the same shape at different, overlapping places
+    box = [[0, 2], [0, 3], [1, 2], [1, 3]]
+    for cells_ in ([[1, 1], [1, 2], [2, 1], [2, 2]], [[0, 1], [0, 2], [1, 1], [1, 2]], [[1, 2], [1, 3], [2, 2], [2, 3]]):
+        out.append({'shape': [3, 4], 'amp': 'array', 'opd': 'array', 'mask': '2d', 'segs': [cells_], 'cls': 'Plane', 'inc': 'after-offcentre', 'corner': box})
+    out.append({'shape': [3, 4], 'amp': 'array', 'opd': 'scalar', 'mask': '3d', 'segs': [[[1, 0], [1, 1], [2, 0], [2, 1]], [[1, 2], [1, 3], [2, 2], [2, 3]]],
+                'cls': 'Plane', 'inc': 'after-offcentre', 'corner': [[0, 1], [0, 2], [1, 1], [1, 2]]})
     return out, len(out), False
 
 
@@ -242,6 +248,8 @@ def run_phasor(W, cfg):
         # plane without shape: multiplies whatever shape the wavefront has
         ph = optics.phasor(W, A, O, lam)
         W.ob('field', out.field, in_field * ph)
+        plane.amplitude = A * 2
+        W.ob('field after the plane\'s amplitude was replaced (same wavelength)', (w * plane).field, in_field * ph * 2)
         return
     support = set()
     for s in cfg['segs']:
@@ -251,6 +259,9 @@ def run_phasor(W, cfg):
     inf = (lambda r, c: in_field) if getattr(in_field, 'shape', ()) == () else (lambda r, c: in_field[r, c])
     want = [[(inf(r, c) * optics.phasor(W, amp_at(r, c), opd_at(r, c), lam)) if (r, c) in support else 0 for c in range(shp[1])] for r in range(shp[0])]
     W.ob('field', out.field, W.array(want))
+    # the plane's amplitude replaced between two products at the same wavelength: the second product uses the new one
+    plane.amplitude = (Aarr if cfg['amp'] == 'array' else A) * 2
+    W.ob('field after the plane\'s amplitude was replaced (same wavelength)', (w * plane).field, W.array(want) * 2)
 
 
 # ------------------------------------------------------------------ pixelscale reconciliation
